@@ -19,7 +19,7 @@ RULE = (
     "secondary address length 0..9 x 0..6 results x trailer; bind_nak 0..4 versions; request/response/fault: stub 0..40 x object UUID x trailer; security trailer: all "
     "provider x level members x pad 0..15; verification trailer: every command list of length 1..3 over {bitmask,pcontext,header2,unknown} x MUST_PROCESS; floors: known shapes "
     "and unknown protocols with lhs/rhs 0..9; towers 0..6 floors; ept_map x {obj,handle}; ept_map result 0..3 towers with independent length residues mod 8 x handle x status). "
-    "Oracle: pack() == independent reference encoding, unpack(pack(x)) field-wise == x on constructor fields, re-pack identical. termination part: every prefix, every count/length "
+    "All ordered pairs and triples of 28 representative messages of all kinds are decoded in one process (state must not leak between codecs; unknown command types and unknown floor protocols share values). Oracle: pack() == independent reference encoding, unpack(pack(x)) field-wise == x on constructor fields, re-pack identical. termination part: every prefix, every count/length "
     "field substituted by {0,1,0x7f,0xff,0xffff,2^32-1,2^64-1}, END flag cleared (+0/4/64KiB of zeros or END-less commands), all strings <=2 bytes, for every decoder entry point, "
     "each under a step budget of 50000+100*len dpapi_ng line events and an allocation budget of 1MiB+64*len. state = one (decoder, input) execution; transition = decoder step batches "
     "are not counted, transitions = executions of the decoder under budget. Non-trivial = decoder entered with non-empty input; distinct by (entry point, bytes)."
@@ -161,7 +161,8 @@ def gen_wellformed(kind: str) -> t.Iterator[t.Tuple[t.Any, t.Callable[[], t.Any]
             if code == "h":
                 v = struct.pack("<B3x4sIHH", 0, rpc.DREP, 9, 1, 0)
                 return R.CommandHeader2(flags=R.CommandFlags(fl), packet_type=R.PacketType(0), data_rep=R.DataRep(), call_id=9, context_id=1, opnum=0), (3, fl, v)
-            return R.Command(command=R.CommandType(0x55), flags=R.CommandFlags(fl), value=b"\x01\x02\x03"), (0x55, fl, b"\x01\x02\x03")
+            unk = 0x55 if not fl & rpc.VT_MUST else 0x0C  # unknown command types that coincide with unknown floor protocol ids used below
+            return R.Command(command=R.CommandType(unk), flags=R.CommandFlags(fl), value=b"\x01\x02\x03"), (unk, fl, b"\x01\x02\x03")
 
         for k in (1, 2, 3):
             for codes in itertools.product("bphu", repeat=k):
@@ -183,7 +184,7 @@ def gen_wellformed(kind: str) -> t.Iterator[t.Tuple[t.Any, t.Callable[[], t.Any]
         ]
         for i, (mkf, rf) in enumerate(known):
             yield [kind, "known", i], mkf, repm.floor_bytes(rf), E.Floor.unpack
-        for proto in (0x55, 0x00, 0x08, 0x10, 0x1F, 0xFF):
+        for proto in (0x55, 0x0C, 0x00, 0x08, 0x10, 0x1F, 0xFF):
             for ll in range(10):
                 for rl in range(10):
                     lhs, rhs = bytes(range(ll)), bytes(range(100, 100 + rl))
@@ -346,6 +347,7 @@ def shards(tier: str, seed: int):
     out += [["prefix", k] for k in WF_KINDS]
     out += [["subst", k] for k in WF_KINDS]
     out += [["noend"], ["gk"]]
+    out += [["mixed", part] for part in range(4)]
     out += [["short", name] for name in ("PDU", "SecTrailer", "VerificationTrailer", "Command", "Floor", "EptMap", "EptMapResult", "GetKey.unpack", "GetKey.unpack_response")]
     return out
 
@@ -462,6 +464,32 @@ def run_shard(shard, tier, seed, acc) -> None:
         acc.transitions += n
         acc.outcome("short-terminated", n)
         acc.sample({"all_byte_strings_of_length<=2": f"65,793 strings into {shard[1]}"})
+    elif what == "mixed":
+        # decoders of different kinds in one process, in every order: pairs and triples of representative messages
+        reps = []
+        for kind in WF_KINDS:
+            items = list(gen_wellformed(kind))
+            picks = [items[0], items[len(items) // 2], items[-1]] if kind in ("vt", "floor") else [items[len(items) // 3], items[-1]]
+            for desc, mk, ref, unpack in picks:
+                reps.append((desc, mk, ref, unpack))
+        n = 0
+        for k in (2, 3):
+            for idx, seq in enumerate(itertools.product(range(len(reps)), repeat=k)):
+                if idx % 4 != shard[1] or acc.too_many():
+                    continue
+                for j in seq:
+                    desc, mk, ref, unpack = reps[j]
+                    res = case_wellformed(desc, mk, ref, unpack)
+                    if res:
+                        acc.violate("mixed." + res[0], ["mixed", [reps[i][0] for i in seq], reps[j][0]], res[1], size=k)
+                        break
+                n += 1
+        acc.ev(n)
+        acc.nt_counted(n)
+        acc.states += n
+        acc.transitions += n * 3
+        acc.outcome("mixed-sequences-ok", n)
+        acc.sample({"cross-codec sequence": [reps[0][0], reps[-1][0], reps[len(reps) // 2][0]], "representatives": len(reps)})
     elif what == "gk":
         from ref import ndr64
 
@@ -513,6 +541,17 @@ def replay(case, seed, acc) -> None:
                 v, det, _, _ = case_term(KIND_EP[kind], eps[KIND_EP[kind]], data, mem=True)
                 if v:
                     acc.violate(v, case, det)
+    elif what == "mixed":
+        allw = {}
+        for kind in WF_KINDS:
+            for desc, mk, ref, unpack in gen_wellformed(kind):
+                allw[repr(desc)] = (desc, mk, ref, unpack)
+        for dsc in case[1]:
+            desc, mk, ref, unpack = allw[repr(dsc)]
+            res = case_wellformed(desc, mk, ref, unpack)
+            if res:
+                acc.violate("mixed." + res[0], case, res[1])
+                break
     elif what == "short":
         v, det, _, _ = case_term(case[1], eps[case[1]], bytes.fromhex(case[2]))
         if v:
